@@ -15,11 +15,13 @@ import (
 	"berty.tech/go-ipfs-log/identityprovider"
 	"berty.tech/go-orbit-db/address"
 	"berty.tech/go-orbit-db/iface"
+	"berty.tech/go-orbit-db/pubsub/directchannel"
 	"berty.tech/go-orbit-db/stores/documentstore"
 	"berty.tech/go-orbit-db/stores/eventlogstore"
 	"berty.tech/go-orbit-db/stores/kvstore"
 	"berty.tech/go-orbit-db/stores/operation"
 	coreiface "github.com/ipfs/kubo/core/coreiface"
+	"go.uber.org/zap"
 )
 
 // Peer is one running OrbitDB instance (real code) on one incarnation of a simulated node.
@@ -290,4 +292,13 @@ func LogHashSeq(s iface.Store) []string {
 		out[i] = e.GetHash().String()
 	}
 	return out
+}
+
+
+// WithDirectChannelStreams makes the instance use the libp2p-stream direct channel
+// (pubsub/directchannel) over the stub host instead of the default pubsub-based one.
+func WithDirectChannelStreams() PeerOpt {
+	return func(p *Peer, o *orbitdb.NewOrbitDBOptions) {
+		o.DirectChannelFactory = directchannel.InitDirectChannelFactory(zap.NewNop(), p.Inc.Host())
+	}
 }
